@@ -263,50 +263,163 @@ def run(ctx):
     r = ge.methods.get("recalculate_extents")
     if r is None:
         raise AnalysisError("anchor vanished: CT_GroupShape.recalculate_extents")
-    body = [x for x in r.node.body if not (isinstance(x, ast.Expr) and isinstance(x.value, ast.Constant))]
-    probs = []
-    # the only early exit allowed is the "not a group" guard (the walk ends at the tree root)
-    guard_seen = False
-    for i, x in enumerate(body):
-        if isinstance(x, ast.If) and any(isinstance(y, ast.Return) for y in x.body):
-            tsrc = ast.unparse(x.test)
-            if "self.tag" in tsrc and "grpSp" in tsrc and not guard_seen and i == 0:
-                guard_seen = True
+    from sa import paths as P_
+    from sa import records as R_
+    from sa.inline import expand as _exp17
+
+    ce = prog.lookup(ge, "_child_extents")
+    if ce is None:
+        raise AnalysisError("anchor vanished: CT_GroupShape._child_extents")
+    cex = _exp17(prog, ce, depth=3, local_only=True)
+    cval = P_.value_aliases(cex)
+    crows = [(fs, n_) for fs, n_ in P_.return_rows_deep(cex.body, P_.aliases(cex)) if n_.value is not None]
+    comps = [R_.components(prog, ce.module, n_.value) for _fs, n_ in crows]
+    fnames = R_.field_names(prog, ce.module, [n_.value for _fs, n_ in crows])
+    if not crows or any(c is None or len(c) != 4 for c in comps):
+        ctx.error("CT_GroupShape._child_extents", "the four components (x, y, cx, cy) of the returned value are not recognised")
+        comps = []
+
+    # -- what recalculate_extents stores, on every path, by component of _child_extents
+    rx = _exp17(prog, r, depth=3, local_only=True)
+    rval = P_.value_aliases(rx)
+    probs, undecided = [], []
+
+    def comp_index(e):
+        """index of the _child_extents component an expression denotes (through single-assignment names), or None"""
+        for _ in range(6):
+            if isinstance(e, ast.Name) and e.id in rval:
+                e = rval[e.id]
             else:
-                probs.append("early return under `%s`: the group (or its ancestors) is not refitted on that path" % tsrc[:60])
-        elif any(isinstance(y, ast.Return) for y in ast.walk(x)):
-            probs.append("return before the recalculation is complete (line %d)" % x.lineno)
-    unpack = [x for x in body if isinstance(x, ast.Assign) and isinstance(x.targets[0], ast.Tuple) and dotted(x.value) == "self._child_extents"]
-    names = [e.id for e in unpack[0].targets[0].elts] if unpack else []
-    stored = {}
-    for x in body:
-        if isinstance(x, ast.Assign) and isinstance(x.value, ast.Name):
-            for t in x.targets:
-                d = dotted(t)
-                if d:
-                    stored[d] = x.value.id
-    want = {}
-    if len(names) == 4:
-        want = {"self.x": names[0], "self.y": names[1], "self.cx": names[2], "self.cy": names[3],
-                "self.chOff.x": names[0], "self.chOff.y": names[1], "self.chExt.cx": names[2], "self.chExt.cy": names[3]}
-    miss = {k: v for k, v in want.items() if stored.get(k) != v}
-    if not want or miss:
-        probs.append("position/size and child offset/extent are not all assigned from _child_extents (%s)" % sorted(miss or ["unpacking not found"]))
-    last = body[-1] if body else None
-    up = isinstance(last, ast.Expr) and isinstance(last.value, ast.Call) and ast.unparse(last.value) == "self.getparent().recalculate_extents()"
-    if not up:
-        probs.append("the last statement is not the unconditional upward recursion self.getparent().recalculate_extents()")
-    if not probs:
+                break
+        sel = R_.selector(e, fnames)
+        if sel is None:
+            return None
+        base, k = sel
+        for _ in range(6):
+            if isinstance(base, ast.Name) and base.id in rval:
+                base = rval[base.id]
+            else:
+                break
+        return k if dotted(base) == "self._child_extents" else None
+
+    WANT = {"self.x": 0, "self.y": 1, "self.cx": 2, "self.cy": 3, "self.chOff.x": 0, "self.chOff.y": 1, "self.chExt.cx": 2, "self.chExt.cy": 3}
+    n_paths = 0
+    for pth in P_.enum_paths(rx.body):
+        if not P_.feasible(pth):
+            continue
+        sts = pth.stmts()
+        stored = {}
+        for x in sts:
+            if isinstance(x, ast.Assign):
+                for t in x.targets:
+                    d = dotted(t)
+                    if d in WANT:
+                        stored[d] = comp_index(x.value)
+        up = [i for i, x in enumerate(sts) if isinstance(x, ast.Expr) and isinstance(x.value, ast.Call)
+              and ast.unparse(x.value) == "self.getparent().recalculate_extents()"]
+        def not_a_group(a_):
+            if a_[0] != "cmp" or a_[1] not in ("Eq", "NotEq") or {a_[2], a_[3]} != {"self.tag", "qn('p:grpSp')"}:
+                return False
+            return (a_[1] == "Eq") != a_[4]
+        is_guard = not stored and not up and any(not_a_group(a_) for a_ in P_.facts(pth))
+        if is_guard and pth.end in ("return", "fall"):
+            continue   # the walk ends above the outermost group (the shape tree itself)
+        n_paths += 1
+        if pth.end == "raise":
+            continue
+        miss = sorted(k for k, v in WANT.items() if stored.get(k) != v)
+        if miss:
+            if any(k in stored and stored[k] is None for k in miss):
+                undecided.append("value stored to %s is not traced to a component of _child_extents" % [k for k in miss if k in stored and stored[k] is None])
+            else:
+                probs.append("position/size and child offset/extent are not all assigned from _child_extents (%s)" % miss)
+        if not up:
+            tests = [ast.unparse(ev[1])[:60] for ev in pth.events if ev[0] == "cond"]
+            probs.append("a path%s ends without the upward recursion self.getparent().recalculate_extents(): ancestors are not refitted"
+                         % ((" under `%s`" % tests[-1]) if tests else ""))
+    if n_paths == 0:
+        undecided.append("no recalculating path found")
+    if probs:
+        ctx.violation("R17.2", "CT_GroupShape.recalculate_extents", "; ".join(sorted(set(probs))), file=ge.file, line=r.line)
+    elif undecided:
+        ctx.error("CT_GroupShape.recalculate_extents", "; ".join(sorted(set(undecided))))
+    else:
         ctx.ok("R17.2", "CT_GroupShape.recalculate_extents", sample={"assigns": "x,y,cx,cy and chOff/chExt from _child_extents", "recurses": "parent, unconditionally"})
-    else:
-        ctx.violation("R17.2", "CT_GroupShape.recalculate_extents", "; ".join(probs), file=ge.file, line=r.line)
-    ce = ge.methods.get("_child_extents")
-    csrc = ast.unparse(ce.node) if ce else ""
-    if all(t in csrc for t in ("min(", "max(", "iter_shape_elms")):
-        ctx.ok("R17.2", "CT_GroupShape._child_extents", nontrivial=False)
-    else:
-        ctx.violation("R17.2", "CT_GroupShape._child_extents", "child extents are not min/max over all member shapes", file=ge.file,
-                      line=ce.line if ce else ge.line)
+
+    # -- what _child_extents computes: the bounding box of every member shape
+    def canon_agg(e):
+        """('min'|'max', element text with the loop variable written v, population text) of PICK(<comprehension over the members>)"""
+        if not (isinstance(e, ast.Call) and isinstance(e.func, ast.Name) and e.func.id in ("min", "max") and len(e.args) == 1 and not e.keywords):
+            return None
+        c = e.args[0]
+        for _ in range(4):
+            if isinstance(c, ast.Name) and c.id in cval:
+                c = cval[c.id]
+        if not (isinstance(c, (ast.ListComp, ast.GeneratorExp)) and len(c.generators) == 1 and not c.generators[0].ifs
+                and isinstance(c.generators[0].target, ast.Name)):
+            return None
+        v = c.generators[0].target.id
+
+        class Rn(ast.NodeTransformer):
+            def visit_Name(self, x):
+                return ast.Name(id="v", ctx=x.ctx) if x.id == v else x
+        import copy as _copy
+
+        elt = ast.unparse(Rn().visit(_copy.deepcopy(c.elt)))
+        pop = P_.full(c.generators[0].iter, cval)
+        return e.func.id, elt, pop
+
+    def canon_comp(e):
+        e = ast.parse(P_.full(e, {k: v for k, v in cval.items() if not isinstance(v, (ast.ListComp, ast.GeneratorExp))}), mode="eval").body
+        if isinstance(e, ast.BinOp) and isinstance(e.op, ast.Sub):
+            l, r_ = canon_agg(e.left), canon_agg(e.right)
+            return ("sub", l, r_) if l and r_ else None
+        a_ = canon_agg(e)
+        return ("agg", a_) if a_ else None
+
+    POPS = ("list(self.iter_shape_elms())", "self.iter_shape_elms()", "tuple(self.iter_shape_elms())")
+
+    def expect(i):
+        ax, ext = ("x", "cx") if i in (0, 2) else ("y", "cy")
+        lo = ("min", ("v.%s" % ax,))
+        hi = ("max", ("v.%s + v.%s" % (ax, ext), "v.%s + v.%s" % (ext, ax)))
+        return ("agg", lo) if i < 2 else ("sub", hi, lo)
+
+    def matches(got, want):
+        def agg_ok(g, w):
+            return g is not None and g[0] == w[0] and g[1] in w[1] and g[2] in POPS
+        if got is None:
+            return None
+        if got[0] != want[0]:
+            return False
+        if got[0] == "agg":
+            return agg_ok(got[1], want[1])
+        return agg_ok(got[1], want[1]) and agg_ok(got[2], want[2])
+
+    n_box = 0
+    for (fs, n_), cs in zip(crows, comps):
+        zero = all((isinstance(c, ast.Constant) and c.value == 0) or (isinstance(c, ast.Call) and dotted(c.func) in ("Emu", "Length") and len(c.args) == 1
+                   and isinstance(c.args[0], ast.Constant) and c.args[0].value == 0) for c in cs)
+        if zero:
+            continue   # the value for a group with no members
+        n_box += 1
+        bad, unk = [], []
+        for i, c in enumerate(cs):
+            m_ = matches(canon_comp(c), expect(i))
+            if m_ is None:
+                unk.append("%s = `%s`" % ("x y cx cy".split()[i], ast.unparse(c)[:60]))
+            elif not m_:
+                bad.append("%s is `%s`" % ("x y cx cy".split()[i], P_.full(c, {k: v for k, v in cval.items() if not isinstance(v, (ast.ListComp, ast.GeneratorExp))})[:90]))
+        if bad:
+            ctx.violation("R17.2", "CT_GroupShape._child_extents", "child extents are not the bounding box (min x, min y, max right - min x, max bottom - min y) "
+                          "over all member shapes: %s" % "; ".join(bad), file=ge.file, line=n_.lineno if hasattr(n_, "lineno") else ce.line)
+        elif unk:
+            ctx.error("CT_GroupShape._child_extents", "component not recognised as min/max over the member shapes: %s" % "; ".join(unk))
+        else:
+            ctx.ok("R17.2", "CT_GroupShape._child_extents", sample={"x": "min v.x", "y": "min v.y", "cx": "max(v.x+v.cx) - min v.x", "cy": "max(v.y+v.cy) - min v.y",
+                                                                     "population": "self.iter_shape_elms()"})
+    if comps and n_box == 0:
+        ctx.error("CT_GroupShape._child_extents", "no return computing the bounding box found")
 
     # -- R17.3 ---------------------------------------------------------------------------------------------
     ctx.rule("R17.3", "freeform offsets and extents range over every operation that carries a coordinate")
